@@ -546,7 +546,9 @@ func (in *Interp) where(level int, msg string) Value {
 	}
 	f := in.frames[idx]
 	if !f.isLua {
-		return msg
+		// error() not called from Lua code (e.g. pcall(error, msg), or level 2 reaching a host
+		// function): PUC-Lua adds no position, the property only speaks of errors raised from Lua code
+		in.indet("error position level designating a host function")
 	}
 	// a frame above idx entered by a tail call hides its caller
 	for i := idx + 1; i < len(in.frames)-1; i++ {
